@@ -224,7 +224,7 @@ def gen_files(rnd):
     return files
 
 
-def correspond(ctx):
+def _correspond_main(ctx):
     Ls = list(range(0, 201)) + [250, 1000, 10 ** 6, 10 ** 12]
     reqs = ["classify 0 %d" % L for L in Ls]
     model = [mask_model_classify(x) for x in common.run_driver(reqs)]
@@ -331,3 +331,16 @@ def replay(payload):
     if exp.split()[2] == "0":
         i, exp = " ".join(i.split()[:3]), " ".join(exp.split()[:3])
     return i == exp
+
+
+def correspond(ctx):
+    """real check_command / CheckResult.report output lines (path as printed from any working directory, position, length, symbol, summary) vs Model/CheckPrint.lean (Props/Gaps.lean part 3)"""
+    import gaps_stream
+    res = _correspond_main(ctx)
+    dis, counts = gaps_stream.for_check(ctx, (3,), ctx.pick(250, 4000), 'print')
+    res["disagreements"] = list(res["disagreements"]) + dis
+    res["evaluations"] += sum(v.get(k, 0) for v in counts.values() if isinstance(v, dict)
+                              for k in ("texts", "byte_files", "check_command_runs", "report_runs", "cases"))
+    res["distribution"] = dict(res.get("distribution", {}), gaps=counts)
+    res["rule"] += " PLUS real check_command / CheckResult.report output lines (path as printed from any working directory, position, length, symbol, summary) vs Model/CheckPrint.lean (Props/Gaps.lean part 3)"
+    return res
